@@ -185,7 +185,7 @@ Theorem front_cli_interfaces_sound md files mir top :
                       match rp_kind p, rp_arr p with KObjStruct, Some _ => false | _, _ => true end)
             (map abs_param (mf_params f)) = true.
 Proof.
-  unfold front. destruct files as [|main rest]; [discriminate|]. intros H Hin.
+  unfold front, front_gen. destruct files as [|main rest]; [discriminate|]. intros H Hin.
   destruct (gather_files st_empty (main :: rest)) as [st| | |]; cbn in H; try discriminate.
   destruct (functions_pass main) as [[]| | |]; cbn in H; try discriminate.
   destruct (cycles_pass st main) as [order| | |]; cbn in H; try discriminate.
@@ -202,7 +202,7 @@ Theorem front_params_unique e md files main rest mir :
   files = main :: rest -> front e md files = Ok mir ->
   forallb (fun i => forallb (fun f => nodup_str (map p_name (f_params f))) (iface_funcs i)) (ast_ifaces main) = true.
 Proof.
-  intros -> H. unfold front in H.
+  intros -> H. unfold front, front_gen in H.
   destruct (gather_files st_empty (main :: rest)) as [st| | |]; cbn in H; try discriminate.
   unfold functions_pass, func_params_ok in H.
   destruct (forallb _ (ast_ifaces main)) eqn:E; [reflexivity | discriminate].
@@ -241,12 +241,16 @@ Example in_array_small_objstruct_accepted :
   check_params ps false false false false = Ok tt /\ rule_no_array_of_objstruct (map abs_param ps) = false.
 Proof. split; vm_compute; reflexivity. Qed.
 
-(* F9: the library entry point never runs the interface verifier *)
-Example lib_skips_interface_verifier :
+(* F9: the pinned upstream library entry point never ran the interface verifier *)
+Example lib_skips_interface_verifier_upstream :
   let files := [mkAst "m.idl" [NIface (mkI "I" None
      [IFunc (mkFn "f" [mkP false TIface (PArr (Some 2%N)) "a"; mkP false TIface PVal "b"] false None)])]] in
-  is_ok (front Lib Debug files) = true /\ is_ok (front Cli Debug files) = false.
+  is_ok (front_gen false Lib Debug files) = true /\ is_ok (front_gen false Cli Debug files) = false.
 Proof. split; vm_compute; reflexivity. Qed.
+
+(* with the repaired entry point both entry points are the same function *)
+Theorem entry_points_agree md files : front_gen true Lib md files = front_gen true Cli md files.
+Proof. unfold front_gen. destruct files; reflexivity. Qed.
 
 (* F22: a constant may share its name with a struct *)
 Example const_and_struct_same_name_accepted :
